@@ -31,6 +31,12 @@ func GenCase(prop, tier string, base uint64, idx int) *Case {
 		c = genLivingCase(prop, tier, r)
 	case "C14":
 		c = genCommandCase(prop, tier, r)
+	case "C01":
+		c = genRoundTripCase(prop, tier, r)
+	case "C02":
+		c = genStructureCase(prop, tier, r)
+	case "C03":
+		c = genTotalityCase(prop, tier, r)
 	default:
 		return nil
 	}
@@ -48,6 +54,8 @@ func RunCase(t *testing.T, c *Case) *CaseResult {
 		return runPublishCase(t, c)
 	case "commands":
 		return runCommandCase(t, c)
+	case "stream":
+		return runStreamCase(t, c)
 	}
 	cr := &CaseResult{Prop: c.Prop}
 	cr.violate(c.Prop+"/harness", "unknown engine "+c.Engine, "")
@@ -59,4 +67,3 @@ func sampleOf(c *Case) interface{} {
 }
 
 type HistoryCfg struct{}
-type StreamCfg struct{}
